@@ -151,6 +151,12 @@ func checkITFRaw(v int32, rec *h.Rec) {
 		rec.Failf("itf8.Decode(Encode(%d)=% x) = (%d,%d,%v)", v, buf[:n], got, dn, ok)
 		return
 	}
+	// Len(v) bytes of room are enough
+	exact := make([]byte, n)
+	if m := itf8.Encode(exact[:n:n], v); m != n {
+		rec.Failf("itf8.Encode(%d) into a buffer of exactly Len=%d bytes wrote %d bytes", v, n, m)
+		return
+	}
 	// decoding the specification's bytes must give v as well (catches symmetric mistakes)
 	got, dn, ok = itf8.Decode(want)
 	if !ok || dn != n || got != v {
@@ -190,6 +196,11 @@ func checkLTFRaw(v int64, rec *h.Rec) {
 	got, dn, ok := ltf8.Decode(buf[:n])
 	if !ok || dn != n || got != v {
 		rec.Failf("ltf8.Decode(Encode(%d)=% x) = (%d,%d,%v)", v, buf[:n], got, dn, ok)
+	}
+	// Len(v) bytes of room are enough
+	exact := make([]byte, n)
+	if m := ltf8.Encode(exact[:n:n], v); m != n || !bytes.Equal(exact, want) {
+		rec.Failf("ltf8.Encode(%d) into a buffer of exactly Len=%d bytes wrote %d bytes: % x, spec % x", v, n, m, exact, want)
 	}
 }
 
